@@ -343,4 +343,6 @@ func rulesC09(e *Engine, r *Report) {
 		}
 		r.Min("R09.10", "deletions from the per-file lock table", n, 1)
 	}
+	// ---------------------------------------------------------------- R09.11
+	e.shareRule(r, "C01", "R01.7", "R09.11", "the record of ranges belongs to one version: an existing companion is continued only when its hash equals the hash announced with the part; otherwise a fresh record is started (ranges of another version's bytes must not count towards this version's completeness)")
 }
